@@ -175,8 +175,11 @@ def normalize(ctx, F):
     R = Resolver(b)
     site = 'AffFuncBase::normalize'
     zips = [R.call_args(bb) for bb, t in b.calls() if Callee(t['func']).name == 'zip']
-    okz = any(is_call(z[0], 'ArrayBase::outer_iter_mut') and z[0][2][0] == ('field', ('param', 'self'), 'mat') and is_call(z[1], 'ArrayBase::outer_iter_mut') and
-              z[1][2][0] == ('field', ('param', 'self'), 'bias') for z in zips)
+    SM, SB = ('field', ('param', 'self'), 'mat'), ('field', ('param', 'self'), 'bias')
+
+    def rows_of(x, base):
+        return (is_call(x, 'ArrayBase::outer_iter_mut', 'ArrayBase::rows_mut', 'ArrayBase::axis_iter_mut') and x[2][0] == base) or x == base   # iter_mut is transparent
+    okz = any(rows_of(z[0], SM) and rows_of(z[1], SB) for z in zips)
     # the factor is a norm of the row being scaled: sqrt(..) of an expression over that row only (any positive factor keeps the
     # point set; positivity is what the `norm > eps` guard below establishes, so the kind of norm is not prescribed)
     sq = [R.call_args(bb) for bb, t in b.calls() if Callee(t['func']).name == 'sqrt']
@@ -184,7 +187,7 @@ def normalize(ctx, F):
     if len(sq) == 1:
         comps = [x[2] for x in walk(sq[0][0]) if isinstance(x, tuple) and x[:1] == ('field',) and is_call(x[1], 'Iterator::next')]
         norm_ok = comps == ['0']   # the matrix-row component of the (row, bias) pair, nothing else
-    # both divisions use the same norm and are guarded by norm > eps
+    # both divisions use the same norm and are guarded by norm > eps: `view.map_inplace(|x| *x /= norm)` or, for a single entry, `*entry /= norm`
     divs = []
     for bb, t in b.calls():
         c = Callee(t['func'])
@@ -195,12 +198,19 @@ def normalize(ctx, F):
             lits = literals(b, R, bb)
             guard = any(op_ == 'Gt' for op_, x_, y_ in prune.cmp_facts(lits))
             isdiv = bool(rets) and is_call(rets[0], 'DivAssign::div_assign') and rets[0][2][1] == ('upvar', 'norm')
-            divs.append((caps, guard, isdiv))
-    same = len(divs) == 2 and s(divs[0][0]) == s(divs[1][0]) and all(d[1] and d[2] for d in divs)
+            divs.append((a[0], caps, guard, isdiv))
+        elif c.name == 'div_assign' and not t.get('exp'):
+            a = R.call_args(bb)
+            lits = literals(b, R, bb)
+            guard = any(op_ == 'Gt' for op_, x_, y_ in prune.cmp_facts(lits))
+            divs.append((a[0], (a[1],), guard, True))
+    comps_scaled = sorted(d[0][2] for d in divs if d[0][0] == 'field' and is_call(d[0][1], 'Iterator::next'))
+    same = len(divs) == 2 and s(divs[0][1]) == s(divs[1][1]) and all(d[2] and d[3] for d in divs) and comps_scaled == ['0', '1'] and \
+        s(divs[0][0][1]) == s(divs[1][0][1])
     # nothing else writes the rows: every other &mut use of self's arrays is iteration plumbing
     from ..effects import mut_calls, assigns
     PLUMBING = {'outer_iter_mut', 'rows_mut', 'axis_iter_mut', 'iter_mut', 'next', 'zip', 'into_iter', 'enumerate', 'view_mut', 'row_mut', 'index_mut', 'for_each'}
-    others = [w for w in mut_calls(b, R) if w.callee.name not in PLUMBING and w.callee.name != 'map_inplace'
+    others = [w for w in mut_calls(b, R) if w.callee.name not in PLUMBING and w.callee.name not in ('map_inplace', 'div_assign')
               and any(isinstance(x, tuple) and x[:2] == ('field', ('param', 'self')) for a_ in w.args[:1] for x in walk(a_))]
     others += [w for w in assigns(b, R) if any(isinstance(x, tuple) and x[:2] == ('field', ('param', 'self')) for x in walk(w.target))]
     if others:
